@@ -54,6 +54,8 @@ pub(crate) struct Speaker {
     pub is_ebgp_view: bool,
     /// send a KEEPALIVE right after our OPEN reply
     pub auto_ka: bool,
+    /// stop sending periodic KEEPALIVEs (peer goes silent)
+    pub mute: bool,
     consumed: u64,
 }
 
@@ -175,6 +177,7 @@ impl Speaker {
             bytes_rx: 0,
             is_ebgp_view: false,
             auto_ka: true,
+            mute: false,
             consumed: 0,
         }
     }
@@ -183,6 +186,7 @@ impl Speaker {
     /// because a restarted speaker has lost its Adj-RIB-In).
     pub(crate) fn reset_session(&mut self) {
         self.conn = None;
+        self.mute = false;
         self.rx.clear();
         self.consumed = 0;
         self.codec = bgp::PeerCodec::new();
